@@ -416,9 +416,38 @@ func report(p *propSpec, tier string, seed int, results []UnitResult, t0 time.Ti
 	nv := len(cases)
 	cases = append(cases, passing...)
 	validated, reproduced := 0, map[string]bool{}
+	_ = validated
 	var knownSeen []string
-	if len(cases) > 0 && os.Getenv("GOSYM_NOREPLAY") == "" {
-		outs, err := nativeReplay(cases)
+	// schedule-dependent harnesses (coroutine scheduler, virtual clock) cannot be replayed against
+	// the native build: the recorded schedule is re-executed deterministically in the interpreter instead
+	var nativeCases []replayCase
+	interpReplayed := 0
+	for i, c := range cases {
+		if c.Params["interp_replay"] == "" {
+			nativeCases = append(nativeCases, c)
+			continue
+		}
+		if i >= nv {
+			validated++ // passing path of a concurrent harness: nothing to compare natively
+			continue
+		}
+		ru := Unit{ID: "replay-" + c.ID, Pkg: c.Pkg, Harness: c.Harness, Params: c.Params, Domain: vrecs[i].u.Domain, StepBudget: vrecs[i].u.StepBudget, ReplayModel: c.Model}
+		rr := runUnits([]Unit{ru}, 1, 300*time.Second, false)
+		ok := false
+		for _, v := range rr[0].Violations {
+			if v.ID == c.WantFail {
+				ok = true
+			}
+		}
+		interpReplayed++
+		if ok {
+			reproduced[c.ID] = true
+		} else {
+			broken = append(broken, fmt.Sprintf("counterexample %s (%s) did not reproduce when its schedule was re-executed: %v", c.ID, c.WantFail, c.Params))
+		}
+	}
+	if len(nativeCases) > 0 && os.Getenv("GOSYM_NOREPLAY") == "" {
+		outs, err := nativeReplay(nativeCases)
 		if err != nil {
 			broken = append(broken, "native replay failed: "+err.Error())
 		} else {
@@ -427,6 +456,9 @@ func report(p *propSpec, tier string, seed int, results []UnitResult, t0 time.Ti
 				byID[o.ID] = o
 			}
 			for i, c := range cases {
+				if c.Params["interp_replay"] != "" {
+					continue
+				}
 				o, ok := byID[c.ID]
 				if !ok {
 					broken = append(broken, "native replay: no result for "+c.ID)
